@@ -5,14 +5,16 @@ Theorems about the model `PubgrubModel/Range.lean` for every linear order `V`, c
 (`WF`) and ascending version sequences (`List.Pairwise (· ≤ ·)`; the Rust debug-asserts sortedness,
 unsorted input is outside the property).
 
-Open (not proved, covered by the correspondence and the direct oracle only): the `Display` clause
-("the text denotes exactly the range's set, distinct sets print differently").  The model of
-`Display` is `Range.display`; reading the text back is checked on every range of the scope by the
-harness (`read_display`).  `iter()` yields the segments themselves (`C15_iter`).
+The Display clause is proved on the structure of the text (`displayAtoms`: per segment the atoms
+`>=v`, `>v`, `<=v`, `<v`, bare `v`, `*`; atoms joined by ", " = and, segments by " | " = or, "∅" for no
+segment): the model's string IS the rendering of that structure (`C15_display_is_render`, string
+level), the structure denotes exactly the range's set (`C15_display_denotes`) and determines the range
+(`C15_display_injective`), so distinct sets print differently.  `iter()` yields the segments (`C15_iter`).
 -/
 import PubgrubProofs.RangeQuery
 import PubgrubProofs.RangeRel
 import PubgrubProofs.RangeSet
+import PubgrubProofs.DisplayLaws
 
 namespace Pubgrub.C15
 open Pubgrub Pubgrub.Range Bound
@@ -88,6 +90,25 @@ theorem C15_isEmpty [DenselyOrdered V] [NoMinOrder V] [NoMaxOrder V] [Nonempty V
 /-- `iter()` yields the segments, whose union is the set -/
 theorem C15_iter (r : Range V) (v : V) :
     Range.contains r v = true ↔ ∃ seg ∈ r, Seg.Mem v seg := contains_iff_mem r v
+
+/-- the Display string is the rendering of the structured text -/
+theorem C15_display_is_render (showV : V → String) (r : Range V) :
+    Range.display showV r = renderAtoms showV (displayAtoms r) := display_eq_render showV r
+
+/-- read with the usual meaning of the symbols, the text denotes exactly the range's set -/
+theorem C15_display_denotes (r : Range V) (x : V) :
+    Denotes (displayAtoms r) x ↔ Range.contains r x = true := display_denotes r x
+
+/-- the text determines the range (any segment lists): distinct ranges, a fortiori distinct sets, print
+differently -/
+theorem C15_display_injective (a b : Range V) (h : displayAtoms a = displayAtoms b) : a = b :=
+  displayAtoms_injective' a b h
+
+theorem C15_distinct_sets_print_differently (a b : Range V)
+    (hne : ∃ x, Range.contains a x ≠ Range.contains b x) : displayAtoms a ≠ displayAtoms b := by
+  intro h
+  obtain ⟨x, hx⟩ := hne
+  exact hx (by rw [displayAtoms_injective' a b h])
 
 /-! Non-vacuity -/
 example : Range.WF (Range.union (Range.between (1 : Nat) 2) (Range.singleton 5)) :=
